@@ -115,11 +115,14 @@ func twoSourceManager(ctx context.Context, rr *core.Rand, s int) string {
 	}()
 	ig := transferIG("igtwo", "ttwo", []string{"block_time"}, nil)
 	ig.Sources = []config.Source{{Name: "sa", Start: 1}, {Name: "sb", Start: 1}}
+	// a second declaration planned with eth_getLogs only: no header segment cache in front of its partitions
+	igl := transferIG("iglogs", "tlogs", nil, nil)
+	igl.Sources = []config.Source{{Name: "sa", Start: 1}, {Name: "sb", Start: 1}}
 	conf := config.Root{
 		Sources: []config.Source{
 			{Name: "sa", ChainID: 1, URLs: []string{n1.URL()}, PollDuration: 3 * time.Millisecond, BatchSize: 4, Concurrency: 2},
 			{Name: "sb", ChainID: 2, URLs: []string{n2.URL()}, PollDuration: 3 * time.Millisecond, BatchSize: 4, Concurrency: 2}},
-		Integrations: []config.Integration{ig},
+		Integrations: []config.Integration{ig, igl},
 	}
 	if err := config.ValidateFix(&conf); err != nil {
 		return "setup: " + err.Error()
@@ -149,7 +152,7 @@ func twoSourceManager(ctx context.Context, rr *core.Rand, s int) string {
 				done++
 			}
 		}
-		if done >= 2 {
+		if done >= 4 {
 			break
 		}
 		time.Sleep(10 * time.Millisecond)
@@ -246,7 +249,7 @@ func runC18(e *core.Env) error {
 		w.close()
 	}
 	// (E) one declaration on two sources through the real Manager / loadTasks
-	for s := 0; s < e.N(2, 10); s++ {
+	for s := 0; s < e.N(4, 16); s++ {
 		out := twoSourceManager(ctx, r.Fork(), s)
 		e.Add(core.Case{Impl: out, Spec: out, Key: fmt.Sprintf("c18-two-sources %d", s), Nontrivial: true, Tags: []string{"scenarios", "one-declaration-two-sources-through-loadTasks"}})
 	}
